@@ -1789,14 +1789,16 @@ func (pa *pkgAn) walkLHS(c *fctx, st *state, e ast.Expr, alsoRead bool) {
 	}
 }
 
-func (pa *pkgAn) walkGo(c *fctx, st *state, call *ast.CallExpr) {
+func (pa *pkgAn) walkGo(c *fctx, st *state, call *ast.CallExpr) { pa.walkGoAs(c, st, call, "/go") }
+
+func (pa *pkgAn) walkGoAs(c *fctx, st *state, call *ast.CallExpr, tag string) {
 	for _, a := range call.Args {
 		pa.walkExpr(c, st, a)
 	}
 	if fl, ok := call.Fun.(*ast.FuncLit); ok {
 		// a new goroutine: no locks of the spawner, no role; the `go` statement itself orders what
 		// happened before it, which the phase captures for constructors only
-		gc := c.child("/go")
+		gc := c.child(tag)
 		gc.role = 0
 		gc.params = map[*types.Var]int{}
 		gs := newState()
@@ -1808,10 +1810,10 @@ func (pa *pkgAn) walkGo(c *fctx, st *state, call *ast.CallExpr) {
 	if id, ok := call.Fun.(*ast.Ident); ok {
 		if b := c.b.m[pa.info.Uses[id]]; b != nil {
 			b.used = true
-			gc := c.child("/go")
+			gc := c.child(tag)
 			gc.role = 0
 			gc.fn = c.fn
-			pa.invoke(gc, newState(), b, "/go:"+b.name)
+			pa.invoke(gc, newState(), b, tag+":"+b.name)
 			return
 		}
 	}
@@ -1963,7 +1965,38 @@ func (pa *pkgAn) walkComposite(c *fctx, st *state, x *ast.CompositeLit) {
 	}
 }
 
+// timerSpawn: `time.AfterFunc(d, f)` and `context.AfterFunc(ctx, f)` run f on a goroutine of its own, started
+// by the runtime when the timer fires / the context ends — never on the calling goroutine, never under the
+// caller's locks.  For every pass of the extractor such a call is a `go f()` statement (round 7).  Returns f.
+func (pa *pkgAn) timerSpawn(call *ast.CallExpr) ast.Expr {
+	se, ok := call.Fun.(*ast.SelectorExpr)
+	if !ok || se.Sel.Name != "AfterFunc" || len(call.Args) != 2 {
+		return nil
+	}
+	// (std lib packages are empty for the extractor's importer: the package is recognised by its import path)
+	id, ok := se.X.(*ast.Ident)
+	if !ok {
+		return nil
+	}
+	pn, ok := pa.info.Uses[id].(*types.PkgName)
+	if !ok || (pn.Imported().Path() != "time" && pn.Imported().Path() != "context") {
+		return nil
+	}
+	return call.Args[1]
+}
+
+// timerGo: the synthetic `go f()` statement a timer call stands for (positions of the original call)
+func timerGo(call *ast.CallExpr, f ast.Expr) *ast.GoStmt {
+	return &ast.GoStmt{Go: call.Pos(), Call: &ast.CallExpr{Fun: f, Lparen: f.End(), Rparen: call.Rparen}}
+}
+
 func (pa *pkgAn) walkCall(c *fctx, st *state, call *ast.CallExpr) {
+	// a timer-started goroutine
+	if f := pa.timerSpawn(call); f != nil {
+		pa.walkExpr(c, st, call.Args[0])
+		pa.walkGoAs(c, st, timerGo(call, f).Call, "/timer")
+		return
+	}
 	// lock operations
 	if op := pa.lockOp(call); op != "" {
 		pa.applyLock(st, call, op)
